@@ -97,6 +97,21 @@ def canonical_lexical(g):
     return True
 
 
+def _lower_lang(g):
+    """RDF 1.1: language tags compare case-insensitively ("x"@en and "x"@EN are one term, rdflib stores whichever spelling came
+    first and its canonical hashing is confused by mixed spellings): compare graphs with the tags lower-cased"""
+    h = Graph()
+    for s_, p_, o_ in g:
+        if isinstance(o_, Literal) and o_.language:
+            o_ = Literal(str(o_), lang=o_.language.lower())
+        h.add((s_, p_, o_))
+    return h
+
+
+def iso(a, b):
+    return isomorphic(_lower_lang(a), _lower_lang(b))
+
+
 def max_depth_cases(out, tmp):
     """--max-depth N on the command line is max_validation_depth=N of the API: same outcome on a chain of nested shapes"""
     sp, dp = os.path.join(tmp, "md_s.ttl"), os.path.join(tmp, "md_d.nt")
@@ -217,7 +232,7 @@ def run(ctx, out):
                     out.b_fail.append({"signature": "C18:api:does-not-parse:%s" % fmt, "case": case, "error": type(e).__name__})
                     continue
                 got = report_key(back)
-                same = (got == want) and conforms == base[1] and (fmt == "json-ld" or isomorphic(back, rg))
+                same = (got == want) and conforms == base[1] and (fmt == "json-ld" or iso(back, rg))
                 if not same and fmt in ("turtle", "n3") and shares_list_bnode(rg):
                     out.b_fail.append({"signature": KNOWN_RDFLIB, "case": case, "format": fmt})
                 elif not same:
@@ -271,9 +286,9 @@ def run(ctx, out):
                     out.b_fail.append({"signature": "C18:cli:does-not-parse:%s" % fmt, "case": case, "error": type(e).__name__})
                     continue
                 got = report_key(back)
-                if (got != want or not isomorphic(back, ref[3])) and fmt in ("turtle", "n3") and shares_list_bnode(ref[3]):
+                if (got != want or not iso(back, ref[3])) and fmt in ("turtle", "n3") and shares_list_bnode(ref[3]):
                     out.b_fail.append({"signature": KNOWN_RDFLIB, "case": case, "format": fmt})
-                elif got != want or (fmt != "json-ld" and not isomorphic(back, ref[3])):
+                elif got != want or (fmt != "json-ld" and not iso(back, ref[3])):
                     out.b_fail.append({"signature": "C18:cli:report-differs:%s" % fmt, "case": case,
                                        "only_api": list((want[1] - got[1]).elements())[:2] if got and want else None,
                                        "only_cli": list((got[1] - want[1]).elements())[:2] if got and want else None})
